@@ -503,6 +503,11 @@ def _index_reads_every_record_once(ctx):
         r8_request_and_terminator(ctx)
 
 
+def _no_shared_results(ctx):
+    from .c20 import r6_memoised_results
+    r6_memoised_results(ctx, ("bionumpy.io.indexed_fasta", "bionumpy.io.indexed_files", "bionumpy.genomic_data.genomic_sequence"))   # what the indexed file reports is not a shared, writable object
+
+
 RULES = [
     ("C17-R1", r1_roles),
     ("C17-R2", r2_byte_arithmetic),
@@ -512,4 +517,5 @@ RULES = [
     ("C17-T2", _small_edits),
     ("C17-R5", _interval_order_restored),
     ("C17-R6", _index_reads_every_record_once),
+    ("C17-R7", _no_shared_results),
 ]
